@@ -203,6 +203,22 @@ def run_world(plan, world=None):
       cnt['i'] += 1
       return ch[cnt['i'] % len(ch)]
     net.chunker = chunker
+  seg_plan = dict((int(p_), sp_['segments']) for p_, sp_ in plan['servers'].items() if sp_.get('segments'))
+  if seg_plan:
+    # replies arrive as several segments 1 ms apart (sizes of the first ones given, the rest follows)
+    def trickle(sock, data):
+      seg = seg_plan.get(sock.addr[1]) if sock.addr else None
+      if not seg:
+        return None
+      out, pos = [], 0
+      for k in seg:
+        if pos + k >= len(data):
+          break
+        out.append((0.001 if out else 0.0, data[pos:pos + k]))
+        pos += k
+      out.append((0.001 if out else 0.0, data[pos:]))
+      return out
+    net.trickle = trickle
   stalls = dict((int(p_), sp_['stall']) for p_, sp_ in plan['servers'].items() if sp_.get('stall'))
   if stalls:
     def stall_fn(sock, data, idx):
